@@ -295,7 +295,13 @@ def angle_of(x):
     of the object but not of its value: printing and splitting must not depend on it, so it
     is varied deterministically with x (default for a third of the cases; also through the
     copy constructor, which carries the tolerance over)."""
-    a = Angle(x)
+    j = int(abs(x) * 104729.0) % 7
+    if j in (1, 2, 3):
+        # the same direction entered as a right ascension in hours, a whole number of turns
+        # away (24 h, -24 h, 48 h): "any Angle", however it was entered
+        a = Angle(x / 15.0 + (24.0, -24.0, 48.0)[j - 1], ra=True)
+    else:
+        a = Angle(x)
     k = int(abs(x) * 7919.0) % len(TOLS)
     if TOLS[k] is not None:
         a.set_tolerance(TOLS[k])
